@@ -691,6 +691,18 @@ def boundary_scripts(T):
                 steps.append(st(PUT, 1, [1, 0, szx], None, pat(fl, 7), [68, [], "-"]))
                 steps.append(st(PUT, 1, [1, 0, szx], None, pat(fl, 7), [68, [], "-"]))
             out.append({"kind": "R", "eps": ep, "steps": steps})
+    # BERT (szx 7): blocks with the more flag are multiples of 1024 bytes, block numbers count 1024-byte
+    # units, a final block has any length
+    for n0 in (1, 2, 3):
+        steps = [st(PUT, 0, [0, 1, 7], None, pat(1024 * n0, 1), [68, [], "-"]),
+                 st(PUT, 1, [n0, 1, 7], None, pat(2048, 2), [68, [], "-"]),
+                 st(PUT, 1, [n0 + 2, 1, 7], None, pat(1000, 3), [68, [], "-"]),
+                 st(PUT, 1, [n0 + 2, 1, 7], None, pat(1025, 3), [68, [], "-"]),
+                 st(PUT, 1, [n0 + 1, 0, 7], None, pat(5, 3), [68, [], "-"]),
+                 st(PUT, 1, [n0 + 2, 0, 7], None, pat(2500, 4), [68, [], pat(3, 1)]),
+                 st(PUT, 1, [n0 + 5, 0, 7], None, pat(5, 5), [68, [], "-"]),
+                 st(PUT, 1, [n0 + 2, 0, 7], None, pat(2500, 4), [68, [], "-"])]
+        out.append({"kind": "R", "eps": ep, "steps": steps})
     # lifetime: phase of the timer (armed by another key `ph` ticks earlier) x idle time
     eps2 = [[list(ADDRS[0]), None, 1124, 6], [list(ADDRS[1]), None, 1124, 6]]
     idles = [T - 1, T, T + 1, 2 * T - 1, 2 * T, 2 * T + 1]
@@ -982,7 +994,8 @@ def run(env, rep):
         scripts.append((s, ["boundary"] * len(s["steps"])))
     rep.exhaustive_parts.append("szx 0..7 x body lengths k*size-1..k*size+1 for Block1 and Block2; per szx final "
                                 "blocks of 0, size-1, size, size+1, 2*size bytes and blocks n+1 / n+1 with more / "
-                                "n+2 / repeated final block after completion; idle times "
+                                "n+2 / repeated final block after completion; BERT Block1 sequences (multiples of 1024 with the more flag, "
+                                "1000 / 1025 bytes refused, final block of 2500 bytes); idle times "
                                 "T-1..T+1, 2T-1..2T+1 x timer phase x keep-alive; maximum_payload_size edges; "
                                 "each component of the block key changed alone; each of 8 exception classes raised "
                                 "on a block-0 request (Block2 0 / none / final Block1 block / no assembly) with an "
